@@ -82,7 +82,9 @@ func check(prop string) int {
 		// requests from every state reached; thorough: depth 2 full, depth 3 reduced
 		p = &ee.Plan{Property: "C14", Sides: []string{"R", "C"}, FullDepth: 1, Depth: 2, Repeat: 8, RepeatDepth: 1, Budget: envDur("VERIF_EE_BUDGET", 170*time.Second), Alphabet: ee.Alphabet, Classes: classes}
 		if th {
-			p.FullDepth, p.Depth, p.RepeatDepth, p.ExpandAllDepth, p.Budget = 2, 3, 1, 1, envDur("VERIF_EE_BUDGET", 20*time.Minute)
+			// thorough: depth 2 with the reduced alphabet from EVERY level-1 state, depth 3 (reduced) from representatives,
+			// then the rest of the full alphabet at depth 2 for as long as the budget lasts
+			p.FullDepth, p.Depth, p.RepeatDepth, p.ExpandAllDepth, p.ExtraFullLevel, p.Budget = 1, 3, 1, 1, 2, envDur("VERIF_EE_BUDGET", 20*time.Minute)
 		}
 	case "C17rest", "C17":
 		p = &ee.Plan{Property: "C17", Sides: []string{"R"}, FullDepth: 1, Depth: 2, Repeat: 1, RepeatDepth: 0, ExpandAll: true, C17: true, Budget: envDur("VERIF_EE_BUDGET", 100*time.Second), Classes: classes,
